@@ -112,6 +112,10 @@ class Ops:
             return self.to_val(a) == self.to_val(b)
         if isinstance(a, SBool) and isinstance(b, SBool):
             return a.t == b.t
+        if type(a).__name__ == "SSqlCell" and isinstance(b, (SStr, SInt)):
+            return a.t == b.t
+        if type(b).__name__ == "SSqlCell" and isinstance(a, (SStr, SInt)):
+            return a.t == b.t
         if isinstance(a, (SInt, SBool)) and isinstance(b, (SInt, SBool)):
             return self.as_int(a) == self.as_int(b)
         if isinstance(a, (SInt, SFloat, SBool)) and isinstance(b, (SInt, SFloat, SBool)):
@@ -239,37 +243,48 @@ class Ops:
             return VAL.VOther(enum_code(v) + 1000 * (1 + sorted(ENUMS.sorts).index(v.ecls)))
         if isinstance(v, (SList, SSet)):
             rec = self.st.lists[v.lid]
+            from .values import vdict_get, vdict_has, vlist_get
+
+            if rec.kind == "conc":
+                # structural encoding: equal contents (in order) give the same term
+                nil = z3.Int("vlist_nil")
+                cons = z3.Function("vlist_cons", z3.IntSort(), VAL, z3.IntSort())
+                t = nil
+                vals = [self.to_val(it) for it in rec.items]
+                for x in vals:
+                    t = cons(t, x)
+                self.st.assume(vlist_len(t) == len(vals))
+                for i, x in enumerate(vals):
+                    self.st.assume(vlist_get(t, z3.IntVal(i)) == x)
+                self.st.ghost.setdefault("val_back", {})[str(t)] = v
+                return VAL.VList(t)
             key = ("vlist", v.lid, tuple(str(i) for i in v.idx))
             g = self.st.ghost.setdefault("val_ids", {})
             if key not in g:
                 g[key] = fresh_int("vlid")
                 self.st.ghost.setdefault("val_back", {})[str(g[key])] = v
-                if rec.kind == "conc":
-                    from .values import vlist_get
-
-                    self.st.assume(vlist_len(g[key]) == len(rec.items))
-                    for i, it in enumerate(rec.items):
-                        try:
-                            self.st.assume(vlist_get(g[key], z3.IntVal(i)) == self.to_val(it))
-                        except Unsupported:
-                            pass
             return VAL.VList(g[key])
         if isinstance(v, SDict):
+            from .values import vdict_get, vdict_has
+
+            drec = self.st.dicts[v.did]
+            if drec.kind == "conc" and all(isinstance(kk, SStr) for kk, _ in drec.items):
+                nil = z3.Int("vdict_nil")
+                cons = z3.Function("vdict_cons", z3.IntSort(), z3.IntSort(), VAL, z3.IntSort())
+                t = nil
+                pairs = [(kk.t, self.to_val(vv)) for kk, vv in drec.items]
+                for kt, vt in pairs:
+                    t = cons(t, kt, vt)
+                for kt, vt in pairs:
+                    self.st.assume(z3.And(vdict_has(t, kt), vdict_get(t, kt) == vt))
+                self.st.assume(vdict_size(t) == len(pairs))
+                self.st.ghost.setdefault("val_back", {})[str(t)] = v
+                return VAL.VDict(t)
             key = ("vdict", v.did)
             g = self.st.ghost.setdefault("val_ids", {})
             if key not in g:
                 g[key] = fresh_int("vdid")
                 self.st.ghost.setdefault("val_back", {})[str(g[key])] = v
-                drec = self.st.dicts[v.did]
-                if drec.kind == "conc":
-                    from .values import vdict_get, vdict_has
-
-                    for kk, vv in drec.items:
-                        if isinstance(kk, SStr):
-                            try:
-                                self.st.assume(z3.And(vdict_has(g[key], kk.t), vdict_get(g[key], kk.t) == self.to_val(vv)))
-                            except Unsupported:
-                                pass
             return VAL.VDict(g[key])
         if isinstance(v, SObj):
             return VAL.VOther(z3.IntVal(-v.oid))
@@ -375,7 +390,7 @@ class Ops:
         return ne
 
     def key_term(self, k: V):
-        if isinstance(k, SStr):
+        if isinstance(k, SStr) or type(k).__name__ == "SSqlCell":
             return k.t
         if isinstance(k, SVal):
             return VAL.vs(k.t)
